@@ -237,9 +237,102 @@ func respSig(o *rt.Outcome) string {
 	return fmt.Sprintf("status=%d hdr[%s] body=%q", o.Status, headerSig(o.Rec.Hdr()), o.Rec.Body.String())
 }
 
+var c11DefaultMuxUsed bool
+
+// c11DefaultMux: once per process, a container that sits on http.DefaultServeMux (as the package-level container does).
+// The model follows what the calls report: a Remove that returns an error has removed nothing.
+func c11DefaultMux(ctx *core.Ctx) {
+	if c11DefaultMuxUsed {
+		return
+	}
+	c11DefaultMuxUsed = true
+	c := restful.NewContainer()
+	c.ServeMux = http.DefaultServeMux
+	mk := func(root string, id int) *restful.WebService {
+		ws := new(restful.WebService).Path(root)
+		ws.Route(ws.GET("/x").To(c11RouteFunc(id)))
+		return ws
+	}
+	type svc struct {
+		root string
+		id   int
+	}
+	var model []svc
+	var log []string
+	step := func(desc string, f func()) (pan interface{}) {
+		log = append(log, desc)
+		defer func() { pan = recover() }()
+		f()
+		return nil
+	}
+	fail := func(sig, what string) {
+		ctx.Violation(-1, sig, fmt.Sprintf("container on http.DefaultServeMux, after %v: %s", log, what), map[string]interface{}{"history": log})
+	}
+	a, b := mk("/dmux-a", 9001), mk("/dmux-b", 9002)
+	for _, w := range []struct {
+		ws *restful.WebService
+		s  svc
+	}{{a, svc{"/dmux-a", 9001}}, {b, svc{"/dmux-b", 9002}}} {
+		w := w
+		if p := step("Add("+w.s.root+")", func() { c.Add(w.ws) }); p != nil {
+			fail("c11:op-panics:Add:default-mux", fmt.Sprintf("Add panicked: %v", p))
+			return
+		}
+		model = append(model, w.s)
+	}
+	compare := func() bool {
+		fresh := restful.NewContainer()
+		for _, s := range model {
+			fresh.Add(mk(s.root, s.id))
+		}
+		for _, p := range []string{"/dmux-a/x", "/dmux-b/x", "/dmux-a/nope", "/dmux-c/x"} {
+			for _, entry := range []string{rt.ServeHTTP, rt.Dispatch} {
+				req := rt.Req{Method: "GET", Path: p}
+				x, y := respSig(rt.Run(c, entry, &req)), respSig(rt.Run(fresh, entry, &req))
+				ctx.Eval(2)
+				if x != y {
+					fail("c11:differs:"+entry+":default-mux", fmt.Sprintf("GET %s via %s -> %s, a fresh container with %v answers %s", p, entry, x, model, y))
+					return false
+				}
+			}
+		}
+		return true
+	}
+	if !compare() {
+		return
+	}
+	var err error
+	if p := step("Remove(/dmux-a)", func() { err = c.Remove(a) }); p != nil {
+		fail("c11:op-panics:Remove:default-mux", fmt.Sprintf("Remove panicked: %v", p))
+		return
+	}
+	if err == nil {
+		model = model[1:] // the call reports success: the service is gone
+		log[len(log)-1] += " = nil"
+	} else {
+		log[len(log)-1] += " = error (refused)"
+	}
+	if !compare() {
+		return
+	}
+	if err == nil {
+		// removed, so its root path is free again
+		if p := step("Add(/dmux-a) again", func() { c.Add(mk("/dmux-a", 9003)) }); p != nil {
+			fail("c11:op-panics:Add:default-mux", fmt.Sprintf("Add of a root path that was removed before panicked: %v", p))
+			return
+		}
+		model = append(model, svc{"/dmux-a", 9003})
+		compare()
+	}
+	ctx.Count("default_servemux_histories", 1)
+}
+
 func c11(ctx *core.Ctx) {
 	quietLogs()
-	ctx.Rule("generated histories of 4-20 operations over {Add, Remove (also repeated), Route, RemoveRoute (also of a route that is not there), Handle, HandleWithFilter, a duplicate Handle whose documented panic the caller survives} on a root-path pool built to collide (/, '', /a, /a/, /a/b, /a/{x}, /a/{x}/b, /a/{y}/c, /ab, /{z}, /u, /u/, /u/{a}, /users/{id}/a, /users/{id}/b, /{p}/{q} ...), dynamic and static services, now and then 33 or 70 further services registered first, duplicate (method,path) routes with different Produces, both routers, with and without the OPTIONS filter. After EVERY operation a fresh container is built from the model (new objects, same order) and ~250 probe requests (hits, near misses, handler patterns, strays; GET/POST/OPTIONS/DELETE) are answered via ServeHTTP and Dispatch by both; complete responses must be equal. Add/Handle must not panic. Non-trivial = a history prefix containing a Remove/RemoveRoute or >= 2 services; distinct by (operation kind, number of services, root-on-'/' present, handlers present, router).")
+	if !ctx.Skip(0) {
+		c11DefaultMux(ctx)
+	}
+	ctx.Rule("generated histories of 4-20 operations over {Add, Remove (also repeated), Route, RemoveRoute (also of a route that is not there), Handle, HandleWithFilter, a duplicate Handle whose documented panic the caller survives} on a root-path pool built to collide (/, '', /a, /a/, /a/b, /a/{x}, /a/{x}/b, /a/{y}/c, /ab, /{z}, /u, /u/, /u/{a}, /users/{id}/a, /users/{id}/b, /{p}/{q} ...), dynamic and static services, now and then 33 or 70 further services registered first, duplicate (method,path) routes with different Produces, both routers, with and without the OPTIONS filter; once per process a container on http.DefaultServeMux (Add, Add, Remove - which is refused there - and, if it was not, Add again). After EVERY operation a fresh container is built from the model (new objects, same order) and ~250 probe requests (hits, near misses, handler patterns, strays; GET/POST/OPTIONS/DELETE) are answered via ServeHTTP and Dispatch by both; complete responses must be equal. Add/Handle must not panic. Non-trivial = a history prefix containing a Remove/RemoveRoute or >= 2 services; distinct by (operation kind, number of services, root-on-'/' present, handlers present, router).")
 	ctx.Assume("histories never add a duplicate root path (the library exits by contract) and never register a handler pattern twice")
 	hists := ctx.N(250, 20000)
 	nextID := 0
